@@ -2,6 +2,7 @@ import SFV.Proofs.GaussNM
 import SFV.Proofs.FockTensor
 import SFV.Proofs.Bosonic
 import SFV.Proofs.GaussBackend
+import SFV.Proofs.BosonicRefine
 
 /-!
 # C01 — all simulator back ends compute the same physics
@@ -111,6 +112,25 @@ theorem fock_blas_mixed1 {K : Type} [Zero K] [Add K] [Mul K] (D n : Nat) (mat ma
     subst this; simp [blasMixed1, hn]
   · obtain ⟨hp, a, b⟩ := blasListMixed1_facts n m h1
     exact blasMixed1_applyAt1 D n mat matc m hn hp a b ρ
+
+/-- **bosonic simulator = the same phase-space calculation**: for a single-mode block `[[a, b], [c, d]]`
+(rotation, squeezing, attenuation … as handed to `symp.expand`), the update of every component's means and
+covariances through `expandS`/`update_means`/`update_covs` with the `from_xp` permutation is exactly
+`linMap (rows1 k a b c d)` — the specification the Gaussian simulator refines
+(`gaussian_program_refines`).  All register sizes, target positions, blocks. -/
+theorem bosonic_single_mode_refines {K : Type} [CommRing K] (n k : Nat) (hk : k < n) (a b c d : K)
+    (μ : Nat → K) (V : Nat → Nat → K) (hV : ∀ x y, V x y = V y x) (i j : Nat) (hi : i < n) (hj : j < n) :
+    let μ' := Bos.updateMeans n (Bos.expand n [k] (Bos.block2 a b c d)) μ
+    let V' := Bos.updateCovs n (Bos.expand n [k] (Bos.block2 a b c d)) (fun _ _ => 0) V
+    (Bos.toXPb μ' V').mx i = (linMap (rows1 k a b c d) (Bos.toXPb μ V)).mx i ∧
+    (Bos.toXPb μ' V').mp i = (linMap (rows1 k a b c d) (Bos.toXPb μ V)).mp i ∧
+    (Bos.toXPb μ' V').xx i j = (linMap (rows1 k a b c d) (Bos.toXPb μ V)).xx i j ∧
+    (Bos.toXPb μ' V').xp i j = (linMap (rows1 k a b c d) (Bos.toXPb μ V)).xp i j ∧
+    (Bos.toXPb μ' V').pp i j = (linMap (rows1 k a b c d) (Bos.toXPb μ V)).pp i j := by
+  intro μ' V'
+  have hm := Bos.updateMeans_rows1 n k hk a b c d μ V i hi
+  have hc := Bos.updateCovs_rows1 n k hk a b c d μ V hV i j hi hj
+  exact ⟨hm.1, hm.2, hc.1, hc.2.1, hc.2.2⟩
 
 /-- **quadrature orderings**: the bosonic simulator's `from_xp` permutation is inverted by `to_xp`
 (so `X[:, perm][perm, :]` re-expresses an xxpp matrix in the xpxp ordering of its means/covs) and
